@@ -84,6 +84,31 @@ D = {  # id: (property, breaks, needs, strengthened-note)
  "C17-2": ("C17", "delPresence deletes only the node's own persisted record", "file served to a peer before deletion", ""),
  "C12-1": ("C12", "setUnpin lost its early return: an unpin that leaves the chunk pinned re-enters the root into the gc index", "pin twice, unpin once, cache over capacity", ""),
  "C12-2": ("C12", "GC dirty-address check hoisted out of the deletion callback", "a pin landing between the check and the callback", ""),
+ "C19-3": ("C19", "Index.Fill merges in the wrong direction (caller's non-zero fields override the stored value)", "Fill with items that carry value fields", "missed at first; the C19 runner now hands Fill items with stale value fields"),
+ "C19-4": ("C19", "skip-start drops any first key that merely extends the StartFrom key", "forward iteration with SkipStartFromItem from an absent key that prefixes the next stored key", ""),
+ "C20-3": ("C20", "merged proximity helper lost the ExtendedPO clamp", "first difference in the low 3 bits of byte 4", ""),
+ "C20-4": ("C20", "DistanceRaw XORs in place into its first argument (aliasing append)", "a second distance/ordering call with the same target", ""),
+ "C11-3": ("C11", "setRemove lost the write-back of the decremented pin counter", "pin count >= 2, then removes", ""),
+ "C11-4": ("C11", "Index.Fill sorts the caller's slice: GetMulti returns chunks in key order, not request order", "GetMulti with addresses not in ascending order", ""),
+ "C24-3": ("C24", "Outbound no longer adds the peer to the known set", "Outbound of a peer that was forgotten / never added", ""),
+ "C24-4": ("C24", "RefreshProtectPeer returns early on an empty list (old protect list stays)", "protect, then refresh with an empty list, then inbound into an oversaturated bin", ""),
+ "C27-3": ("C27", "GetNextHop rewritten onto skipPeers loses the stored-path check", "save, delete/expire, restart, GetNextHop", ""),
+ "C27-4": ("C27", "GetNextHop de-duplicates by path key instead of by neighbour", "two live paths to one target sharing the last hop", ""),
+ "C29-3": ("C29", "requested orders treated as a contiguous window [min,max]", "order list with a hole, e.g. [6 4]", ""),
+ "C29-4": ("C29", "requester's public/private classification cached per overlay and never invalidated", "requester first seen with a private underlay, record replaced by a public one, second request", "missed at first; the C29 generator now replaces the requester's record between requests"),
+ "C03-3": ("C03", "SetHeader keeps the caller's span slice instead of copying it", "caller recycles its span buffer before Hash / Reset zeroes the caller's buffer", "missed at first; the C03 runner now scribbles over its span buffer right after SetHeader"),
+ "C03-4": ("C03", "Write keeps the last section open only when the filling write was non-empty", "zero-length Write on a full hasher, then Hash (worker goroutine panic)", ""),
+ "C02-3": ("C02", "ChunkPipe.Write fast path sends whole chunks past buffered bytes", "short write followed by a write of >= one chunk through ChunkPipe", ""),
+ "C02-4": ("C02", "pipeline bmt writer returns the hasher to the pool before Hash", "concurrent uploads", ""),
+ "C02-5": ("C02", "FeedPipeline drops bytes delivered together with io.EOF", "a reader returning data and EOF in one call", ""),
+ "C06-3": ("C06", "GetChunkHashes verifies pyramid entries in goroutines capturing the loop variables (go 1.17 semantics): only the last entry is verified", "adversarial pyramid with >= 2 entries, altered one not last in map order", ""),
+ "C06-4": ("C06", "retrieval falls back to soc.FromChunk (layout only) instead of soc.Valid", "crafted single-owner-shaped reply for another address", ""),
+ "C16-3": ("C16", "DELETE handler computes the unshared-chunk list before entering DelFile (list-then-remove no longer atomic)", "upload / delete of an overlapping file while a DELETE is held at DelFile", ""),
+ "C16-4": ("C16", "registration gives a one-chunk file's chunk two references", "files of at most one chunk; delete or evict", ""),
+ "C21-3": ("C21", "EachBin/EachBinRev copy the outer slice once under the lock and read bins[i] unlocked", "iteration concurrent with Add/Remove (data race on the per-bin slice headers)", ""),
+ "C21-4": ("C21", "batch Add collects new addresses but indexes addrPo by the wrong position", "batch in which an already-present address precedes a new one", ""),
+ "C38-3": ("C38", "discovery writes answered peers straight into knownPeers (no removal from connected/kept)", "member handshakes while a findGroup request is in flight and is named in the answer", ""),
+ "C38-4": ("C38", "de-duplication cache bounded to 1024 entries (LRU eviction before expiry)", "> ~500 messages within the window, then a late duplicate", ""),
 }
 rows = []
 for d in sorted(glob.glob('/verif/seeded/*')):
